@@ -273,6 +273,41 @@ fn hash_part<const P: u128>(case: &HashCase, cached_slot: usize, st: &mut Stats)
                 }
             }
             st.bump("semantic_store_conditionings_checked");
+            // further compilations in the same hash-identified store: clause subsets of this CNF (padded so that the
+            // variable count stays), and the CNF itself once more; every result, old and new, must keep denoting
+            // its own CNF and hashing to its defining sum
+            let base = crate::cnfgen::CnfCase::read_back(&cnf);
+            if n >= 1 && !base.clauses.is_empty() {
+                let mut compiled: Vec<(BddPtr, Tt)> = vec![(d2, dt)];
+                for round in 0..3u64 {
+                    let mask = crate::engine::splitmix(case.other_bits ^ round);
+                    let mut cl: Vec<Vec<crate::cnfgen::Lit>> =
+                        base.clauses.iter().enumerate().filter(|(i, _)| round == 2 || (mask >> (i % 64)) & 1 == 1).map(|(_, c)| c.clone()).collect();
+                    cl.push(vec![((n - 1) as u8, true), ((n - 1) as u8, false)]);
+                    let sub = crate::cnfgen::CnfCase { clauses: cl };
+                    let sub_obj = sub.to_rsdd();
+                    if sub_obj.num_vars() != n {
+                        continue;
+                    }
+                    let want_t = crate::cnfgen::CnfCase::read_back(&sub_obj).tt();
+                    let r = sem_b.compile_cnf_topdown(&sub_obj);
+                    compiled.push((r, want_t));
+                    for (k, (p, wt)) in compiled.iter().enumerate() {
+                        ensure!(
+                            bdd_tt(*p) == *wt,
+                            "C11/semantic-builder-wrong-function:compile_cnf_topdown",
+                            "hash-identified top-down store over GF({}): after {} compilations in one store, result #{} denotes {:?} instead of its CNF's {:?}",
+                            P,
+                            compiled.len(),
+                            k,
+                            bdd_tt(*p),
+                            wt
+                        );
+                    }
+                    check(format!("top-down (semantic store), compilation #{}", compiled.len()), r.semantic_hash(&map).value(), false, want_t)?;
+                }
+                st.bump("semantic_store_repeated_compilations");
+            }
         }
     }
     st.add("representations", reps);
@@ -298,7 +333,7 @@ pub fn run_hash(case: &HashCase, st: &mut Stats) -> CaseResult {
 impl SubCheckT for Hash {
     type Case = HashCase;
     const NAME: &'static str = "hash";
-    const RULE: &'static str = "a function (random truth table or CNF) represented as BDDs under 3 orders, SDDs under 2 vtrees (compressed / uncompressed), an SDD built by the hash-identified builder and, for CNFs, both top-down stores (over the 64-bit field the hash-identified store's compilation and every conditioning of the result and of its negation, asked twice, must denote the right function); for the exported 32-bit primes, the 64-bit prime and a 96-bit prime: every semantic_hash equals the defining sum over models of the product of the map's weights (harness mulmod), negations hash to 1 - h, cached_semantic_hash (BDD: order+map, SDD: vtree manager+map; one prime per builder) equals the recomputed hash twice in a row and after further operations, for the root and every internal BDD node. Non-trivial: non-constant, >=3 support variables (>=9 representations each)";
+    const RULE: &'static str = "a function (random truth table or CNF) represented as BDDs under 3 orders, SDDs under 2 vtrees (compressed / uncompressed), an SDD built by the hash-identified builder and, for CNFs, both top-down stores (over the 64-bit field the hash-identified store's compilation and every conditioning of the result and of its negation, asked twice, must denote the right function, and so must up to three further CNFs compiled in the same store and every earlier result after them); for the exported 32-bit primes, the 64-bit prime and a 96-bit prime: every semantic_hash equals the defining sum over models of the product of the map's weights (harness mulmod), negations hash to 1 - h, cached_semantic_hash (BDD: order+map, SDD: vtree manager+map; one prime per builder) equals the recomputed hash twice in a row and after further operations, for the root and every internal BDD node. Non-trivial: non-constant, >=3 support variables (>=9 representations each)";
     fn cases(tier: Tier) -> u32 {
         tier.pick(4000, 50_000)
     }
